@@ -391,6 +391,7 @@ class Scheduler(object):
         self._blocked_snapshot = None
         self.preemptions = 0
         self.switches = 0
+        self.monitor = None      # called at every scheduling point
 
         class Thread(VThread):
             _sched = self
@@ -530,6 +531,8 @@ class Scheduler(object):
     def _pick(self, me, kind):
         """Choose the next thread to run and hand the baton over."""
         self.steps += 1
+        if self.monitor is not None and not self.aborted:
+            self.monitor()
         R = [t for t in self.threads if t.state == RUNNABLE]
         if not R:
             if all(t.state in (FINISHED, NEW) for t in self.threads):
